@@ -304,6 +304,37 @@ def value_lattice(ctx):
                                 bad.append((f"{m}{a} on {tag}{fl}:{sig} element {i} stored {rows[i]}", f"array {g} object {w}", f"values:{tag}{m}"))
                                 break
                         dist[tag] = dist.get(tag, 0) + 1
+                    # scalar arguments given as ARRAYS of numbers (NumPy array, Awkward array, list): element i uses scalar i
+                    if tag in ("N.", "A.", "J."):
+                        ks = [0.5 + 0.25 * i for i in range(len(rows))]
+                        forms = {"numpy": numpy.array(ks)} if tag == "N." else \
+                            {"numpy": numpy.array(ks), "awkward": ak.Array(ks)} if tag == "A." else {"awkward-jagged": ak.unflatten(ak.Array(ks), [2, 0, 3, 1])}
+                        acalls = [("scale", "pos"), ("rotateZ", "pos")] + ([("rotateX", "pos"), ("rotateY", "pos")] if len(sig) >= 2 else []) + \
+                            ([("boostX", "beta"), ("boostZ", "beta")] if len(sig) == 3 else []) + \
+                            ([("to_Vector3D", "z")] if len(sig) == 1 else []) + ([("to_Vector4D", "t")] if len(sig) == 2 else [])
+                        for fname, kv in forms.items():
+                            for m, how in acalls:
+                                if fname == "list" and m.startswith("to_"):
+                                    continue
+                                n_calls += 1
+                                sc_ = [0.1 * k for k in ks] if how == "beta" else ks
+                                arg = kv if how != "beta" else (kv * 0.1 if not isinstance(kv, list) else [0.1 * k for k in kv])
+                                try:
+                                    res = getattr(arr, m)(arg) if how == "pos" else getattr(arr, m)(**{how: arg})
+                                    want = [elem_value(getattr(o, m)(k) if how == "pos" else getattr(o, m)(**{how: k})) for o, k in zip(objs, sc_)]
+                                except Exception as e:  # noqa: BLE001
+                                    bad.append((f"{m}({fname} array) on {tag}{fl}:{sig}", f"raises {type(e).__name__}: {str(e)[:80]}", f"values:array-arg:{tag}{m}"))
+                                    continue
+                                if tag == "J.":
+                                    res = ak.flatten(res)
+                                got = flatten_result(res, len(rows))
+                                for i, (g, w) in enumerate(zip(got, want)):
+                                    n_elems += 1
+                                    if not compare_elem(g, w, scale):
+                                        bad.append((f"{m}({fname} array of scalars) on {tag}{fl}:{sig} element {i} stored {rows[i]} scalar {sc_[i]}",
+                                                    f"array {g} object {w}", f"values:array-arg:{tag}{m}"))
+                                        break
+                                dist[tag + "array-arg"] = dist.get(tag + "array-arg", 0) + 1
                     if tag in ("J.", "O."):
                         continue
                     for t2, other in arrs2.items():
